@@ -4,7 +4,7 @@ from harness.rvals import rand_value, aliased_value, no_objects
 EXCS = ['ValueError', 'KeyError', 'RuntimeError', 'CustomError', 'AssertionError', 'NotImplementedError']
 INTERRUPTS = ['KeyboardInterrupt', 'SystemExit', 'GeneratorExit']
 ALIASES_IN = ['fetch', 'load', 'cfg', 'fetch']          # the same alias may be shared by two functions
-ALIASES_OUT = ['send', 'store', 'send']
+ALIASES_OUT = ['send', 'store', 'send', 'svc.store_result', 'audit-log', 'send']      # (aliases are free text: dots, dashes)
 
 
 def const(w):
